@@ -18,7 +18,8 @@ META = {
     "w + T (d - q) >= 0 by substituting the proven bound; each limited law's min-tree contains the demand "
     "and the capacity leaf; plus: the origin laws used on every topology class are these primitives with "
     "the origin's own variables (from the interpreted step), and nothing they use is memoised"
-    "; every scalar argument of the origin laws is bound to the origin's own variable / the parameter of the link it feeds",
+    "; every scalar argument of the origin laws is bound to the origin's own variable / the parameter of the link it feeds"
+    "; the four origin laws of both engines equal the P-table formulas",
     "explanation": "The flow laws are interpreted from source into terms; inequalities are derived by an "
     "abstract domain (sign of polynomials over facts such as r <= 1, rho_first <= rho_max, rho_crit < rho_max; "
     "upper-bound sets through min / scaling by factors in [0,1]); the queue bound is a ring identity after "
